@@ -3,7 +3,6 @@
 set -e
 d="$1"
 rm -rf "$d"
-git -C /repo worktree prune
 git -C /repo worktree add -q --detach "$d" HEAD
 cd "$d"
 CYTHONIZE_SETUP_PY=1 /venv/bin/python setup.py build_ext --inplace >/dev/null 2>&1
